@@ -32,18 +32,32 @@ def run_flat(rep, tier, seed, selftest, cfg):
     os.makedirs(common.WORK, exist_ok=True)
     prop = rep.prop
     # ---- 1. model checking + case emission --------------------------------------
-    r = common.tlc(cfg["module"], cfg["mc_cfg"][tier], workers=cfg.get("workers", 8),
-                   timeout=cfg.get("timeout", {"quick": 900, "thorough": 3400})[tier],
-                   heap=cfg.get("heap", "12g"), tag="%s-mc-%s" % (prop, tier))
-    log("[tlc] %s/%s: %d states generated, %d distinct, %d cases, %.1fs, %s" %
-        (cfg["module"], cfg["mc_cfg"][tier], r.generated, r.distinct, len(r.cases), r.wall,
-         "no invariant violated" if r.ok else "INVARIANT %s VIOLATED" % r.violated))
+    mc_cfgs = cfg["mc_cfg"][tier]
+    if isinstance(mc_cfgs, str):
+        mc_cfgs = [mc_cfgs]
+    r = None
+    for mc in mc_cfgs:
+        r1 = common.tlc(cfg["module"], mc, workers=cfg.get("workers", 8),
+                        timeout=cfg.get("timeout", {"quick": 900, "thorough": 3400})[tier],
+                        heap=cfg.get("heap", "12g"), tag="%s-mc-%s" % (prop, mc.replace(".cfg", "")))
+        log("[tlc] %s/%s: %d states generated, %d distinct, %d cases, %.1fs, %s" %
+            (cfg["module"], mc, r1.generated, r1.distinct, len(r1.cases), r1.wall,
+             "no invariant violated" if r1.ok else "INVARIANT %s VIOLATED" % r1.violated))
+        if not r1.ok:
+            # The algorithm model disagrees with the rule on some input: a candidate defect.  The
+            # emitted cases are still replayed; whether the real compiler shows the same
+            # disagreement is decided by the replay below.
+            log("[tlc] counterexample tail:\n" + r1.tail[-3000:])
+        if r is None:
+            r = r1
+        else:
+            r.generated += r1.generated
+            r.distinct += r1.distinct
+            r.cases += r1.cases
+            r.ok = r.ok and r1.ok
+            r.violated = r.violated or r1.violated
+            r.wall += r1.wall
     model_ok = r.ok
-    if not r.ok:
-        # The algorithm model disagrees with the rule on some input: a candidate defect.  The
-        # emitted cases up to that point are still replayed; the counterexample itself is
-        # reported only if the real compiler shows the same disagreement (below).
-        log("[tlc] counterexample tail:\n" + r.tail[-3000:])
     cases = r.cases
     if not cases:
         raise common.ToolError("TLC emitted no cases")
@@ -94,19 +108,29 @@ def run_flat(rep, tier, seed, selftest, cfg):
         for line in open(f):
             if '"ev":"toolerror"' in line or '"ev": "toolerror"' in line:
                 raise common.ToolError("recorder: " + line[:400])
-    results = common.tlc_traces(cfg["trace_module"], cfg["trace_cfg_rule"], files)
-    for res in results:
-        trace_events += res["matched"]
-        ncases, bad = split_trace(res["file"], res["matched"] if not res["accepted"] else None)
-        if res["accepted"]:
-            traces_ok += ncases
-        else:
+    # A rejected recording is cut after the rejected run and the remainder validated again, so that
+    # one rejection never leaves the rest of a file unexamined (at most 8 rejections per file).
+    todo = list(files)
+    rounds = 0
+    while todo and rounds < 8:
+        rounds += 1
+        results = common.tlc_traces(cfg["trace_module"], cfg["trace_cfg_rule"], todo)
+        todo = []
+        for res in results:
+            trace_events += res["matched"]
+            ncases, bad = split_trace(res["file"], res["matched"] if not res["accepted"] else None)
+            if res["accepted"]:
+                traces_ok += ncases
+                continue
             traces_ok += bad["index"]
-            # classify: a crash of the code under test also ends up here (no outcome event)
+            # a crash of the code under test also ends up here (no outcome event)
             key = " ".join(bad["input_key"])
             rep.violation("trace", key, {"trace_file": res["file"], "first_unmatched_line": res["matched"] + 1,
                                          "unmatched_event": bad["event"], "input": bad["input"],
                                          "message": "recorded behaviour of the real scoper/analyzer is not a behaviour the rule allows"})
+            rest = remainder(res["file"], bad["index"] + 1)
+            if rest:
+                todo.append(rest)
     strict = common.tlc_traces(cfg["trace_module"], cfg["trace_cfg_strict"], files)
     strict_ok = sum(1 for s in strict if s["accepted"])
     for s in strict:
@@ -143,7 +167,7 @@ def run_flat(rep, tier, seed, selftest, cfg):
         "random_traces_accepted_rule_level": traces_ok,
         "trace_events_matched": trace_events,
         "strict_trace_files_accepted": "%d/%d" % (strict_ok, len(files)),
-        "tlc_config": cfg["mc_cfg"][tier],
+        "tlc_config": mc_cfgs,
         "selftests": selftests,
     }
     return rep.finish("model_checking", coverage, cfg["assumptions"])
@@ -169,6 +193,24 @@ def split_trace(path, matched):
     return n, bad
 
 
+def remainder(path, first_case):
+    """Write the runs of a recording from run number `first_case` (0-based) on into a new file."""
+    out = []
+    n = -1
+    with open(path) as f:
+        for line in f:
+            if '"ev":"input"' in line:
+                n += 1
+            if n >= first_case:
+                out.append(line)
+    if not out:
+        return None
+    base = path[:-len(".ndjson")] if path.endswith(".ndjson") else path
+    new = base + "r.ndjson"
+    open(new, "w").writelines(out)
+    return new
+
+
 def trace_selftest(cfg, path):
     """Corrupt a copy of a recording in two ways; both must be rejected."""
     lines = open(path).read().splitlines()
@@ -181,9 +223,14 @@ def trace_selftest(cfg, path):
     if idx is not None:
         tests.append(("dropped_event_rejected", lines[:idx] + lines[idx + 1:]))
     if odx is not None:
-        o = json.loads(lines[odx])
-        o["ok"] = not o["ok"]
-        tests.append(("flipped_outcome_rejected", lines[:odx] + [json.dumps(o)] + lines[odx + 1:]))
+        flipped = []
+        for ln in lines:
+            if '"ev":"outcome"' in ln:
+                o = json.loads(ln)
+                o["ok"] = not o["ok"]
+                ln = json.dumps(o, separators=(",", ":"))
+            flipped.append(ln)
+        tests.append(("flipped_outcome_rejected", flipped))
     files = []
     for name, ls in tests:
         p = os.path.join(common.WORK, "selftest-%s-%s.ndjson" % (cfg["record_prop"], name))
